@@ -307,6 +307,20 @@ def run_shard(spec, tier, seed, scratch):
         stats.case(desc, nontrivial=stats.compared > n0 + 1)
         for x in vs:
             stats.violation(x['sig'], x['case'], x['message'])
+    # thorough: three-round histories on the whole tree / the sub-directory d (states reached from
+    # non-initial Manifest states, each judged)
+    if tier == 'thorough':
+        e3 = ['alter_size', 'delete', 'add_dir', 'alter_top']
+        for e1, e2, e3_, (u1, u2, u3) in itertools.product(e3, e3, e3, [('', '', ''), ('d', '', 'd'), ('', 'd', ''),
+                                                                         ('d', 'd/e', '')]):
+            desc = (name, 'three_rounds', e1, e2, e3_, u1, u2, u3)
+            case = {'tree': tj, 'prior': name,
+                    'rounds': [(e1, u1, o0, 'lib'), (e2, u2, o3, 'lib'), (e3_, u3, o0, 'lib')], 'desc': repr(desc)}
+            n0 = stats.compared
+            vs = check_case(case, scratch, stats)
+            stats.case(desc, nontrivial=stats.compared > n0 + 2)
+            for x in vs:
+                stats.violation(x['sig'], x['case'], x['message'])
     return stats
 
 
